@@ -50,7 +50,9 @@ def run_seed(name, budget_s, tier='quick', verbose=True):
             out['detail'] = (r.stdout + r.stderr)[-500:]
             return out
         demo = os.path.join(sdir, 'demo.py')
-        if os.path.exists(demo):
+        if os.path.exists(demo) and not meta.get('demo_stale'):
+            # (demo_stale: a later fix: commit took the demo's scenario away while the change still breaks the property
+            # on another path - the check decides alone, the meta.json says why)
             e = dict(os.environ, PYTHONDONTWRITEBYTECODE='1')
             # (older demos take the tree as argv[1], newer ones rely on PYTHONPATH)
             r0 = subprocess.run([sys.executable, demo, env.repo_dir()], capture_output=True, text=True, timeout=300,
